@@ -161,6 +161,20 @@ def call_cube(cube, case, rnd, args_out=None):
     # how a caller writes the call is part of the input: everything by keyword, everything positionally in the
     # documented order, or only what differs from the documented defaults
     style = rnd.choice(["kw", "kw", "positional", "defaults"])
+    # the cubes' debug switch only prints; one evaluation in twenty runs with it on (output discarded)
+    if rnd.random() < 0.05 and hasattr(cube, "debug"):
+        import contextlib, io
+        cube.debug = True
+        try:
+            with contextlib.redirect_stdout(io.StringIO()):
+                return _call_cube_styled(cube, case, kw, fa, wa, style)
+        finally:
+            cube.debug = False
+    return _call_cube_styled(cube, case, kw, fa, wa, style)
+
+
+def _call_cube_styled(cube, case, kw, fa, wa, style):
+    f = case.func
     ig, rma = kw["ignore_missing"], kw["return_missing_as"]
     if style == "defaults":
         if ig is False:
@@ -169,10 +183,12 @@ def call_cube(cube, case, rnd, args_out=None):
             kw.pop("return_missing_as")
     wkw = {} if (style == "defaults" and wa is None) else {"weights": wa}
     if f == "count":
+        # the row count may be stated explicitly (it is required when there is nothing to infer it from)
+        N = case.N if case.N is not None else (case.n if (len(case.dims) and case.n % 3 == 1) else None)
         if style == "positional":
-            return cube.count(wa, case.N, ig, rma)
-        if case.N is not None:
-            kw["N"] = case.N
+            return cube.count(wa, N, ig, rma)
+        if N is not None:
+            kw["N"] = N
         return cube.count(**wkw, **kw)
     if f in ("valid_count", "sum", "mean", "stddev", "covariance", "corrcoef"):
         if style == "positional":
@@ -390,7 +406,8 @@ class Gen:
                 "valid": [rnd.random() >= pm for _ in range(n)], "form": rnd.choice(["nan", "tuple"])}
 
     def fmt(self):
-        return self.rnd.choice([("nan",), ("nan",), ("tuple", 0), ("tuple", -1), ("tuple", 7.5), ("plain", 0)])
+        # (sentinels that are themselves plausible results - 1, 2 - must not be mistaken for "missing")
+        return self.rnd.choice([("nan",), ("nan",), ("tuple", 0), ("tuple", -1), ("tuple", 7.5), ("tuple", 1), ("tuple", 2), ("plain", 0)])
 
     def shared_case(self, func=None, nd=None, maxrows=10, extra=None, pad=True):
         rnd = self.rnd
